@@ -265,12 +265,42 @@ def _valid_chunk(codes: List[str]) -> dict:
     return part
 
 
+DEPTH_FAMILIES = {
+    "parallel-in-parallel": lambda d: "(R" * d + "R" + ")" * d,
+    "series-in-series": lambda d: "[R" * d + "]" * d,
+    "alternating": lambda d: "(R[R" * (d // 2) + "R" + "])" * (d // 2),
+    "only-openers": lambda d: "(" * d,
+    "only-closers": lambda d: ")" * d,
+    "openers-then-element": lambda d: "[" * d + "R",
+    "container-in-container": lambda d: "Tlm{X_1=" * d + "R" + "}" * d,
+    "container-list-in-container": lambda d: "Tlm{X_1=[R" * d + "]}" * d,
+    "many-limits": lambda d: "R{R=1" + "/1" * d + "}",
+    "many-parameters": lambda d: "R{" + ",".join(["R=1"] * d) + "}",
+    "long-number": lambda d: "R{R=" + "1" * d + "}",
+    "long-exponent": lambda d: "R{R=1e-" + "9" * d + "}",
+    "long-label": lambda d: "R{:" + "a" * d + "}",
+    "long-symbol": lambda d: "R" + "a" * d,
+    "flat-series": lambda d: "RC" * d,
+    "flat-parallel": lambda d: "(" + "RC" * d + ")",
+    "many-version-marks": lambda d: "!V=1!" * d + "R",
+}
+DEPTHS = [2, 8, 32, 128, 512, 2048, 8192]
+
+
+def _depth_chunk(arg) -> dict:
+    name, depths = arg
+    return _run_strings([DEPTH_FAMILIES[name](d) for d in depths], "depth:" + name)
+
+
 def run(ctx) -> None:
     thorough = ctx.tier == "thorough"
     ctx.rule = ("(a) all concatenations of <= N atoms of a 31-atom lexical alphabet (N=4 quick, N=5 thorough; plus N<=6 over a 16-atom "
                 "and N<=7 over a 12-atom sub-alphabet in thorough), redundant re-spellings skipped so every string is distinct; "
                 "(b) grammar-derived valid codes x every single mutation (deletion, prefix truncation, insertion and substitution of "
-                "each of 50 atoms at every character position); thorough: every double character mutation of the short valid codes. "
+                "each of 50 atoms at every character position); thorough: every double character mutation of the short valid codes; "
+                "(c) 17 one-parameter families that repeat one recursive production or one unbounded lexical item d times, d in {2, 8, 32, "
+                "128, 512, 2048, 8192} (nested connections, nested containers, openers / closers only, limits, parameters, digits, label and "
+                "symbol characters, flat element lists, version marks). "
                 "Non-trivial = the string got past the tokenizer (reached the parser or was accepted).")
     ctx.exhaustive = True
     ctx.assumptions = ["a parse taking > 2 s counts as non-termination", "atoms outside the alphabet are reached only through mutations"]
@@ -279,6 +309,9 @@ def run(ctx) -> None:
     if thorough:
         ctx.pmap(_atom_chunk, _atom_jobs("16-atom", SMALL_ATOMS, 6, 6), label="16-atom N=6")
         ctx.pmap(_atom_chunk, _atom_jobs("12-atom", TINY_ATOMS, 7, 7), label="12-atom N=7")
+    # one-parameter families along every recursive production and every unbounded lexical item
+    ctx.pmap(_depth_chunk, [(name, [d for d in DEPTHS if not (name.startswith("flat") and d > 2048)]) for name in DEPTH_FAMILIES],
+             label="nesting-depth and length families (2 .. 8192)")
     codes = valid_codes()
     ctx.pmap(_valid_chunk, [codes[i::8] for i in range(8)], label="valid codes")
     ctx.pmap(_mut1_chunk, [[c] for c in codes], label="single mutations")
